@@ -250,11 +250,12 @@ func c03R4(c *Ctx, rule string) {
 		}
 		closedF := p.Field("internal/multiplex", cp.typ, "closed")
 		nEOF := 0
-		for _, r := range p.unitReturns(f) {
-			if len(r.Results) < 2 {
+		for _, rp := range p.unitRetPoints(f) {
+			r := rp.At
+			if len(rp.Vals) < 2 {
 				continue
 			}
-			ev := resultValue(r, 1)
+			ev := rp.Vals[1]
 			isEOF := false
 			if ld, ok := ev.(*ssa.UnOp); ok {
 				if g, ok := ld.X.(*ssa.Global); ok && g.Name() == "EOF" {
@@ -267,7 +268,7 @@ func c03R4(c *Ctx, rule string) {
 			}
 			nEOF++
 			closed, empty := false, false
-			for _, at := range AtomsAt(r) {
+			for _, at := range rp.Atoms {
 				if at.Kind == "bool" && at.Pol {
 					if fv, _ := loadedField(at.X); fv == closedF {
 						closed = true
@@ -287,9 +288,10 @@ func c03R4(c *Ctx, rule string) {
 			c.Bad(rule, cp.typ+".Read returns EOF", c.atFn(f), "the pipe never reports end-of-stream: readers of a closed stream block forever")
 		}
 		// no early return on closed alone: every return guarded by closed==true is also guarded by the emptiness test
-		for _, r := range p.unitReturns(f) {
+		for _, rp := range p.unitRetPoints(f) {
+			r := rp.At
 			closed, empty := false, false
-			for _, at := range AtomsAt(r) {
+			for _, at := range rp.Atoms {
 				if at.Kind == "bool" && at.Pol {
 					if fv, _ := loadedField(at.X); fv == closedF {
 						closed = true
